@@ -387,7 +387,18 @@ func drive(args []string) {
 		seenSig[o.Violation.Sig] = true
 		build := jobs[ji].build
 		final := filepath.Join(*replays, fmt.Sprintf("%s-%d-%d.json", *prop, *seed, len(reps)))
-		v, err := shrinkAndConfirm(b, build, o.ReplayFile, final, 25*time.Second)
+		// the first report is minimised with the full budget; further, different
+		// reports of the same check run get a short one (they are still confirmed
+		// in a fresh process), and after four the rest is only counted
+		shrinkFor := 25 * time.Second
+		if len(reps) > 0 {
+			shrinkFor = 6 * time.Second
+		}
+		if len(reps) >= 4 {
+			os.Remove(o.ReplayFile)
+			continue
+		}
+		v, err := shrinkAndConfirm(b, build, o.ReplayFile, final, shrinkFor)
 		if os.Getenv("VERIF_KEEP_RAW") == "" { // debugging aid
 			os.Remove(o.ReplayFile)
 		}
